@@ -10,7 +10,7 @@ Separate Extraction
   Window.run Window.step Window.begun_for_oracle Window.on_incoming_flow
   SenderCredit.lstep SenderCredit.linit SenderCredit.snd_on_incoming_flow
   Enc.enc_bytes Dec.from_slice Value.wf Spec.spec_valid
-  Composite.enc_composite Composite.dec_composite Composite.dispatch CompositeSpec.spec_schemas CompositeSpec.spec_field_names CompositeSpec.performative_schemas CompositeSpec.delivery_state_schemas Composite.dec_via_enum AmqpFrame.enc_frame AmqpFrame.dec_frame
+  Composite.enc_composite Composite.size_composite Composite.dec_composite Composite.dispatch CompositeSpec.spec_schemas CompositeSpec.spec_field_names CompositeSpec.performative_schemas CompositeSpec.delivery_state_schemas Composite.dec_via_enum AmqpFrame.enc_frame AmqpFrame.dec_frame
   Transfer.wire_transfer Transfer.wire_other LengthDelimited.ld_feed_all
   Disposition.dstep
   Ids.lstep Ids.ls_init Ids.cstep Ids.cn_init
